@@ -181,15 +181,22 @@ pub fn analyse_opts(funcs: &[FunctionDump], fi: usize, ops: &OpTable, skip_final
             }
         }
     }
-    // for EndFinally: which finally target does it close?  The nearest region whose finally target
-    // precedes it (regions are properly nested in emitted code).
-    let finally_of_end = |end_pc: usize| -> Option<usize> {
-        regions
-            .iter()
-            .filter(|r| r.finally_target <= end_pc)
-            .map(|r| r.finally_target)
-            .max()
-    };
+    // for EndFinally: which finally target does it close?  Every try statement ends in exactly one
+    // EndFinally; statements nest properly (also inside each other's finally blocks), so in code order
+    // each EndFinally closes the not yet closed region with the largest finally target before it.
+    let mut end_to_finally: BTreeMap<usize, usize> = BTreeMap::new();
+    {
+        let mut open: BTreeSet<usize> = regions.iter().map(|r| r.finally_target).collect();
+        for (&pc, ins) in &instrs {
+            if ins.name == "EndFinally" {
+                if let Some(&ft) = open.range(..=pc).next_back() {
+                    open.remove(&ft);
+                    end_to_finally.insert(pc, ft);
+                }
+            }
+        }
+    }
+    let finally_of_end = |end_pc: usize| -> Option<usize> { end_to_finally.get(&end_pc).copied() };
     // ---- worklist over (pc, height) --------------------------------------------------------------
     let mut heights_at_push: BTreeMap<usize, BTreeSet<usize>> = BTreeMap::new();
     let mut seen: BTreeSet<(usize, usize)> = BTreeSet::new();
@@ -380,8 +387,13 @@ pub fn analyse_opts(funcs: &[FunctionDump], fi: usize, ops: &OpTable, skip_final
                 } else {
                     succ.push((next, hi));
                     // exceptional edge: anything in the body may throw; the handler restores the height
-                    // at the push and pushes the exception
-                    if !(skip_finally_only_exc && r.catch_target == r.finally_target) {
+                    // at the push; a catch block receives the exception on the stack, a statement with
+                    // only a finally block keeps it off the operand stack until the block has ended
+                    if r.catch_target == r.finally_target {
+                        if !skip_finally_only_exc {
+                            succ.push((r.catch_target, hi));
+                        }
+                    } else {
                         succ.push((r.catch_target, hi + 1));
                     }
                 }
